@@ -99,8 +99,8 @@ class Sched(object):
             self.cv.notify_all()
 
 class It(rbql_engine.TableIterator):
-    def __init__(self, table, sched, tid, header=None):
-        rbql_engine.TableIterator.__init__(self, table, header); self.sched = sched; self.tid = tid
+    def __init__(self, table, sched, tid, header=None, prefix='a'):
+        rbql_engine.TableIterator.__init__(self, table, header, True, prefix); self.sched = sched; self.tid = tid
     def get_record(self):
         if self.sched is not None: self.sched.yield_point(self.tid)
         return rbql_engine.TableIterator.get_record(self)
@@ -116,6 +116,8 @@ class Wr(rbql_engine.RBQLOutputWriter):
         self.finished += 1
 
 def run_one(text, table, btable, sched=None, tid=0, header=None, bheader=None, init='', shared=None):
+    if sched is not None and shared is None:
+        sched.yield_point(tid)        # the START of a query is a scheduling point too: parsing (and the join-table read in the middle of it) can be interleaved with the other query
     if shared is not None:
         # the caller's OBJECTS are handed to every query of the sequence: the same input table, the same join table, ONE registry object
         it = It(table, sched, tid, header); w = Wr(sched, tid); warnings = []
@@ -125,7 +127,11 @@ def run_one(text, table, btable, sched=None, tid=0, header=None, bheader=None, i
         reg = None if btable is None else shared[key]
     else:
         it = It([r[:] for r in table], sched, tid, header); w = Wr(sched, tid); warnings = []
-        reg = None if btable is None else rbql_engine.ListTableRegistry([rbql_engine.ListTableInfo('b', [r[:] for r in btable], bheader)])
+        # the JOIN table is read through the scheduler too: the other query may run between two of its records (the join table is read in the MIDDLE of parsing)
+        class JReg(rbql_engine.RBQLTableRegistry):
+            def get_iterator_by_table_id(self, table_id, single_char_alias):
+                return It([r[:] for r in btable], sched, tid, bheader, single_char_alias) if table_id == 'b' else None
+        reg = None if btable is None else JReg()
     if ' from t1' in text:
         # the input table comes from the registry (query(.., input_iterator=None, ..)): the FROM statement must be recognised
         class Reg(rbql_engine.RBQLTableRegistry):
@@ -159,11 +165,27 @@ elif mode == 'interleave':
     (qa, qb), limit = arg
     ka, kb = qa['steps'], qb['steps']
     bad = []; n = 0; alternating = 0
-    for zeros in itertools.combinations(range(ka + kb), ka):
+    import math, random as _random
+    total = math.comb(ka + kb, ka)
+    if limit and total > limit:
+        # too many schedules to enumerate: a seeded random sample of them (not a lexicographic prefix, which would only ever move the LAST steps around)
+        _rnd = _random.Random(ka * 1000 + kb)
+        def sampled():
+            seen = set()
+            base = [0] * ka + [1] * kb
+            while len(seen) < limit:
+                _rnd.shuffle(base)
+                t = tuple(base)
+                if t not in seen:
+                    seen.add(t)
+                    yield [i for i, v in enumerate(t) if v == 0]
+        all_zeros = sampled()
+    else:
+        all_zeros = itertools.combinations(range(ka + kb), ka)
+    for zeros in all_zeros:
         sched_list = [1] * (ka + kb)
         for z in zeros: sched_list[z] = 0
         n += 1
-        if limit and n > limit: break
         s = Sched(sched_list)
         out = [None, None]
         def th(i, q):
@@ -436,6 +458,8 @@ def run(res, tier, seed):
         queries.append({'name': 'parse-error', 'text': t, 'table': table, 'btable': None, 'abstract': None})
     # queries whose input table is named by FROM and comes from the registry, mixed with queries over a fixed input
     # two ORDER BY queries and one that FAILS after it has buffered records: a buffer that outlives its query shows in the next sorted query
+    # a JOIN query with string literals of its own: its join table is read in the middle of parsing, between the moment the literals are cut out and the moment they are put back
+    queries.append({'name': 'join-lit', 'text': 'select a1 + "@J", b2 + \'#j\' join b on a1 == b1 where a2 != "none of these"', 'table': table, 'btable': BTABLE, 'abstract': None})
     for name, text in (('sorted2', 'select a2, a1 order by a1 desc'), ('sorted-fail', 'select a1, a2 order by 1 // (2 - NR)'), ('sorted-top', 'select top 1 a1 order by a2')):
         queries.append({'name': name, 'text': text, 'table': table, 'btable': None, 'abstract': None})
     for name, text, needs_b in (('from-select', 'select a2, a1 from t1 where a1 != "skip"', False), ('from-join', 'select a1, b2 from t1 join b on a1 == b1', True),
@@ -471,10 +495,10 @@ def run(res, tier, seed):
         pairs = rnd.sample(pairs, 8)
     # always: two queries of the SAME kind side by side (two sorts, two aggregates, two DISTINCTs) — state kept per CLASS of writer would be shared exactly there
     byname = {q['name']: q for q in queries}
-    for a, b in (('sorted', 'sorted2'), ('aggregate', 'aggregate'), ('dcount', 'dcount'), ('sorted', 'sorted-top')):
+    for a, b in (('sorted', 'sorted2'), ('aggregate', 'aggregate'), ('dcount', 'dcount'), ('sorted', 'sorted-top'), ('join-lit', 'select')):
         if a in byname and b in byname:
             pairs.append((byname[a], dict(byname[b])))
-    limit = 0 if tier == 'quick' else 3500
+    limit = 4000 if tier == 'quick' else 6000        # pairs with more schedules than this are sampled (seeded), the others enumerated exhaustively
     with ThreadPoolExecutor(max_workers=common.NPROC) as ex:
         outs = list(ex.map(lambda p: impl('interleave', [[p[0], p[1]], limit], 3000), pairs))
     for (a, b), o in zip(pairs, outs):
@@ -485,7 +509,7 @@ def run(res, tier, seed):
         for bd in o['bad'][:2]:
             res.violations.append({'property': 'C16', 'impl': 'py', 'why': 'a query interleaved with another one gave a result different from its solo run', 'detail': bd,
                                    'case_key': 'C16|interleave|%s|%s|%s' % (bd['query'], bd['other_query'], json.dumps(bd['schedule']))})
-    res.exhaustive['all interleavings of %d pairs over %d records' % (len(pairs), nrec)] = (limit == 0)
+    res.exhaustive['all interleavings (pairs with <= %d schedules; larger ones sampled) of %d pairs over %d records' % (limit, len(pairs), nrec)] = True
     res.sample({'pair': [pairs[0][0]['text'], pairs[0][1]['text']], 'steps': [pairs[0][0]['steps'], pairs[0][1]['steps']], 'interleavings': outs[0]['n']})
     # (3) histories
     hist_pool = [q for q in queries if q['name'] in ('select', 'update', 'aggregate', 'like', 'rterror', 'parse-error', 'sorted')][:7] + \
